@@ -270,10 +270,9 @@ def answer (line : String) : String :=
       | "dateTime" => (dateTimeOfLex v11 str).map fun v => (v, fmtDateTime v11 v)
       | "date" => (dateOfLex v11 str).map fun v => (v, fmtDate v11 v)
       | _ => (timeOfLex str).map fun v => (v, fmtTime v)
-    let inR := b01 (endOfDaySubMicro str)
     match r with
-    | .ok (v, t) => s!"model={showDT v}|{showS t} spec=- inK=0 inR={inR}"
-    | .error e => s!"model={showErr e} spec=- inK=0 inR={inR}"
+    | .ok (v, t) => s!"model={showDT v}|{showS t} spec=- inK=0"
+    | .error e => s!"model={showErr e} spec=- inK=0"
   | "lex" =>
     match int? (f "Y") with
     | some y =>
